@@ -1,10 +1,114 @@
 /* genx.c -- generators for the scenarios beyond the basic zoo */
 #define _GNU_SOURCE
+#include <errno.h>
+#include <signal.h>
 #include <string.h>
 #include "hz.h"
 
+int gx_R(int n);
+int gx_P(int pct);
+int gx_add_obj(int kind, int owner);
+struct pop *gx_add_op(int ctx, int ctxid, int when, int op, int64_t d, int64_t a, int64_t b, int64_t c);
+void gx_add_fault(int site, int tid, int k, int sticky, int err, int mode, int64_t param);
+void gx_common_cfg(int n);
+void gx_absent(int pct);
+void gx_eintr(int nloops, int pct);
+int64_t gx_delta(void);
+uint64_t gx_u64(void);
+
+#define R gx_R
+#define P gx_P
+static struct plan *G;
+
+static void mk_threads(int nloops, int ndrv, int cycles_pct)
+{
+	int t;
+	G->nthr = nloops + ndrv;
+	for (t = 0; t < nloops; t++) {
+		struct pthr *pt = &G->thr[t];
+		pt->kind = 'L';
+		pt->cycles = P(cycles_pct) ? 2 : 1;
+		pt->exitmode = P(25);
+		pt->deinit = !P(20);
+		pt->td = 1;
+	}
+	for (; t < G->nthr; t++) {
+		G->thr[t].kind = 'D';
+		G->thr[t].cycles = 1;
+	}
+}
+
+/* ---- C10: iv_signal ---------------------------------------------------------------- */
+static void gen_sig(int tier)
+{
+	int nloops = 1 + R(3), ndrv = 1 + R(2), t, i, sigs[64], nsig = 0, big = tier > 0;
+	static const int signums[2] = { SIGUSR1, SIGUSR2 };
+
+	gx_common_cfg(nloops + ndrv);
+	mk_threads(nloops, ndrv, 10);
+	if (P(20))
+		G->thr[nloops].sigmask_all = 1;	/* a driver that blocks every signal */
+	for (t = 0; t < nloops; t++) {
+		int n = 1 + R(big ? 5 : 3), tm;
+		for (i = 0; i < n && nsig < 64; i++) {
+			int o = gx_add_obj(K_SIGNAL, t), r = R(100);
+			G->obj[o].p[0] = signums[P(75) ? 0 : 1];
+			G->obj[o].p[1] = r < 40 ? 0 : r < 65 ? 1 : r < 85 ? 2 : 3;
+			sigs[nsig++] = o;
+			if (P(80))
+				gx_add_op(CTX_SETUP, t, 0, OP_REG, o, 0, 0, 0);
+		}
+		/* something else in the loop, so that it iterates for other reasons too */
+		tm = gx_add_obj(K_TIMER, t);
+		gx_add_op(CTX_SETUP, t, 0, OP_REG, tm, 0, gx_delta(), 0);
+		if (P(50))
+			gx_add_op(CTX_CB, tm, 0, OP_REG, tm, 0, gx_delta(), 0);
+		if (P(40))
+			gx_add_op(CTX_CB, tm, 1 + R(3), OP_RAISE, signums[R(2)], P(50) ? 0 : 1 + R(G->nthr), 0, 0);
+	}
+	for (i = 0; i < nsig; i++) {
+		int o = sigs[i], na = R(4), owner = G->obj[o].owner;
+		while (na-- > 0) {
+			int when = P(30) ? 0 : 1 + R(3), r = R(100), j, cand[64], nc = 0;
+			for (j = 0; j < nsig; j++)
+				if (G->obj[sigs[j]].owner == owner)
+					cand[nc++] = sigs[j];
+			if (r < 35)
+				gx_add_op(CTX_CB, o, when, OP_UNREG, P(50) ? o : cand[R(nc)], 0, 0, 0);
+			else if (r < 60)
+				gx_add_op(CTX_CB, o, when, OP_REG, cand[R(nc)], 0, 0, 0);
+			else if (r < 85)
+				gx_add_op(CTX_CB, o, when, OP_RAISE, signums[R(2)], P(50) ? 0 : 1 + R(G->nthr), 0, 0);
+			else if (r < 93)
+				gx_add_op(CTX_CB, o, when, OP_WORK, 0, gx_delta(), 0, 0);
+			else
+				gx_add_op(CTX_CB, o, when, OP_YIELD, 0, 0, 0, 0);
+		}
+	}
+	for (t = nloops; t < G->nthr; t++) {
+		int len = 3 + R(big ? 30 : 14);
+		while (len-- > 0) {
+			int r = R(100);
+			if (r < 30)
+				gx_add_op(CTX_DRV, t, 0, OP_SLEEP, 0, gx_delta(), 0, 0);
+			else if (r < 90)
+				gx_add_op(CTX_DRV, t, 0, OP_RAISE, signums[P(75) ? 0 : 1], P(55) ? 0 : 1 + R(G->nthr), 0, 0);
+			else
+				gx_add_op(CTX_DRV, t, 0, OP_YIELD, 0, 0, 0, 0);
+		}
+	}
+	gx_absent(10);
+	gx_eintr(nloops, 10);
+}
+
+int gen_ext2(struct plan *p, const char *scenario, const char *prop, int tier);
+
 int gen_ext(struct plan *p, const char *scenario, const char *prop, int tier)
 {
-	(void)p; (void)scenario; (void)prop; (void)tier;
-	return -1;
+	G = p;
+	if (!strcmp(scenario, "sig")) {
+		gen_sig(tier);
+		return 0;
+	}
+	return gen_ext2(p, scenario, prop, tier);
 }
